@@ -1,9 +1,12 @@
 (* Eval09.v — evaluation of C09 observations.
      (run <plugin> (<argument types>) <class>)   one goderive run on a singleton package
      (broken <mutation> <n> <class>)             one goderive run on a broken user file
-   class = ok | badfile | adderr | generr | cannot | loaderr | crash. *)
+     (multi <n> (<i> <j> ...) <use> <inv> <class>) one goderive run over n packages with the import edges i -> j
+     (ginst <plugin> <n> <class>)                 one goderive run on calls over instantiated generic types
+   class = ok | badfile | adderr | generr | cannot | loaderr | crash.
+   A type parameter of the enclosing generic function is (n 99xx 0 (if 0)) (Validate/TParam.v). *)
 From Verif Require Import Base Sexp.
-From Verif.Validate Require Import Aty Add Gen Spec.
+From Verif.Validate Require Import Aty Add Gen Spec TParam Order.
 Open Scope string_scope.
 
 Definition kind_of (s : string) : option bkind :=
@@ -95,6 +98,27 @@ with parse_tys (fuel : nat) (l : list sexp) : option atys :=
 
 Definition fuel40 : nat := 40.
 
+(* ---- runs over several packages: the import graph ---- *)
+Fixpoint parse_edges (l : list sexp) : option (list (nat * nat)) :=
+  match l with
+  | [] => Some []
+  | Num i :: Num j :: r => option_map (cons (Z.to_nat i, Z.to_nat j)) (parse_edges r)
+  | _ => None
+  end.
+(* package i reaches package j along at least one import edge (paths of at most fuel edges) *)
+Fixpoint reach (fuel : nat) (es : list (nat * nat)) (i j : nat) : bool :=
+  match fuel with
+  | O => false
+  | S f => existsb (fun e => (fst e =? i)%nat && ((snd e =? j)%nat || reach f es (snd e) j)) es
+  end.
+(* initialImports: the OTHER packages of the run that are imported directly or indirectly (also through
+   packages that are not part of the run) *)
+Definition multi_imp (n : nat) (es : list (nat * nat)) (i j : nat) : bool :=
+  negb (i =? j)%nat && reach n es i j.
+(* the packages named on the command line, in that order *)
+Definition multi_pkgs (n : nat) (inv : string) : list nat :=
+  if inv =? "rev" then rev (seq 0 n) else if inv =? "sub" then seq 1 (n - 1) else seq 0 n.
+
 (* coarse class of an observation *)
 Definition coarse (c : string) : option string :=
   if c =? "ok" then Some "ok" else if c =? "badfile" then Some "badfile" else
@@ -113,7 +137,7 @@ Definition eval09 (e : sexp) : verdict :=
         | Some p, Some ts, Some real =>
             let typs := to_list ts in
             if negb (forallb wf typs) then bad_line else
-            let m := run_model p typs in
+            let m := run_model_tp p typs in
             let known := known_class p typs in          (* name of an open finding class, or "" *)
             let c01 := c01_class p typs in
             let predicted :=
@@ -125,7 +149,7 @@ Definition eval09 (e : sexp) : verdict :=
             let spec_ok :=
               if real =? "crash" then false
               else if real =? "badfile" then false
-              else if real =? "ok" then negb (must_report p typs)
+              else if real =? "ok" then negb (must_report_tp p typs)
               else true in
             (* outside the guard: findings of C01, and the open finding classes of C09 (the
                check then requires the class to be listed, see vcheck.classify) *)
@@ -137,6 +161,7 @@ Definition eval09 (e : sexp) : verdict :=
                v_model := Sym predicted;
                v_tag := (if negb (known =? "") && (real =? "badfile") then "known:" ++ known ++ "/" ++ pn
                          else if c01 && (real =? "badfile") then "c01:" ++ pn
+                         else if call_tparam typs then "tparam:" ++ pn ++ "/" ++ predicted ++ "/" ++ (match typs with t :: _ => shape_tag t | [] => "noargs" end)
                          else (if k =? "twin" then "twin:" else "") ++ pn ++ "/" ++ predicted ++ "/" ++ arm_tag p typs) |}
         | _, _, _ => bad_line
         end
@@ -151,6 +176,17 @@ Definition eval09 (e : sexp) : verdict :=
                v_model := Sym "no-crash"; v_tag := "broken/" ++ mut ++ "/" ++ real |}
         | None => bad_line
         end
+      else if k =? "ginst" then
+        (* calls over instantiated generic types (Box[int], …), also inside a generic function whose type
+           parameters they do not mention: nothing of the call mentions a type parameter, the gate of
+           TParam.v stays open and the types are ordinary defined types: generated, and the package type-checks *)
+        match coarse cls with
+        | Some real =>
+            let ok := negb ((real =? "crash") || (real =? "badfile")) in
+            {| v_known := true; v_model_ok := real =? "ok"; v_spec_ok := ok; v_guard := true;
+               v_model := Sym "ok"; v_tag := "ginst/" ++ mut ++ "/" ++ real |}
+        | None => bad_line
+        end
       else if k =? "undef" then
         (* a call whose argument has no type (undefined identifier): derive/find.go defers it,
            generatePackage must end with "cannot generate" *)
@@ -159,6 +195,30 @@ Definition eval09 (e : sexp) : verdict :=
             {| v_known := true; v_model_ok := real =? "err"; v_spec_ok := real =? "err"; v_guard := true;
                v_model := Sym "err"; v_tag := "undefined-argument/" ++ real |}
         | None => bad_line
+        end
+      else bad_line
+  | L [Sym k; Num n; L es; Sym use; Sym inv; Sym cls] =>
+      if k =? "multi" then
+        match coarse cls, parse_edges es with
+        | Some real, Some edges =>
+            let n' := Z.to_nat n in
+            let pkgs := multi_pkgs n' inv in
+            let imp := multi_imp n' edges in
+            let cyclic := existsb (fun i => reach n' edges i i) (seq 0 n') in
+            (* the model of dependenciesFirst with more fuel than packages: None would be the walk that
+               does not return (Order.deps_first_terminates: it is never None) *)
+            let order := deps_first imp pkgs (S (length pkgs)) in
+            let predicted := match order with None => "crash" | Some _ => if cyclic then "ok-or-err" else "ok" end in
+            let model_ok :=
+              match order with
+              | None => real =? "crash"
+              | Some _ => if cyclic then (real =? "ok") || (real =? "err") else real =? "ok"
+              end in
+            {| v_known := true; v_model_ok := model_ok;
+               v_spec_ok := negb ((real =? "crash") || (real =? "badfile")); v_guard := true;
+               v_model := Sym predicted;
+               v_tag := "multi/" ++ (if cyclic then "cyclic" else "acyclic") ++ "/" ++ use ++ "/" ++ inv ++ "/" ++ real |}
+        | _, _ => bad_line
         end
       else bad_line
   | _ => bad_line
